@@ -102,6 +102,7 @@ type c10Listener struct {
 	block uint64
 	n     int // events returned
 	err   bool
+	hash  string // topology hash announced by a refresh event
 }
 
 func (l *c10Listener) logs() ([]types.Log, error) {
@@ -126,7 +127,7 @@ func (l *c10Listener) FetchRefreshEvents(ctx context.Context, a ethCommon.Addres
 	}
 	out := []*events.Refresh{}
 	for i := 0; i < l.n; i++ {
-		out = append(out, &events.Refresh{Hash: "topology-hash"})
+		out = append(out, &events.Refresh{Hash: l.hash})
 	}
 	return out, nil
 }
@@ -143,11 +144,19 @@ func (l *c10Listener) FetchRetryDepositEvents(ev events.RetryV1Event, a ethCommo
 	return nil, nil
 }
 
-type c10Topology struct{ t *topology.NetworkTopology }
+type c10Topology struct {
+	t   *topology.NetworkTopology
+	err bool
+}
 
-func (p c10Topology) NetworkTopology(hash string) (*topology.NetworkTopology, error) { return p.t, nil }
+func (p c10Topology) NetworkTopology(hash string) (*topology.NetworkTopology, error) {
+	if p.err {
+		return nil, errors.New("topology does not match the announced hash")
+	}
+	return p.t, nil
+}
 
-// C10.handler <keygen|fkeygen|refresh> <noevents|fetcherr|silent|gto|refused>
+// C10.handler <keygen|fkeygen|refresh> <noevents|fetcherr|silent|gto|refused>  (refresh also: emptyhash|topoerr|storefail)
 //
 //	the REAL event handler is the entry point: HandleEvents constructs the process and runs Coordinator.Execute itself.
 //	=> <HandleEvents returned ok|err>;L=… of the store the handler's process uses
@@ -166,7 +175,9 @@ func c10handler(a []string) string {
 	for ; util.SortPeersForSession(w.ids, prefix+fmt.Sprint(block))[0].ID != w.ids[1]; block++ {
 	}
 	sid := prefix + fmt.Sprint(block)
-	lst := &c10Listener{block: block, n: 1}
+	lst := &c10Listener{block: block, n: 1, hash: "topology-hash"}
+	topoErr := false
+	topoPath := w.dir + "/topology"
 	switch oc {
 	case "noevents":
 		lst.n = 0
@@ -176,6 +187,13 @@ func c10handler(a []string) string {
 		nd.coord.CoordinatorTimeout = 25 * time.Millisecond
 	case "gto":
 		nd.coord.TssTimeout = 25 * time.Millisecond
+	// faults of what the refresh handler depends on, each at its own point before the session
+	case "emptyhash":
+		lst.hash = ""
+	case "topoerr":
+		topoErr = true
+	case "storefail":
+		topoPath = w.dir + "/no-such-directory/topology" // the topology file cannot be written
 	}
 	bctx, bcancel := context.WithCancel(context.Background())
 	defer bcancel()
@@ -201,7 +219,7 @@ func c10handler(a []string) string {
 			peers = append(peers, &pi)
 		}
 		topo := &topology.NetworkTopology{Peers: peers, Threshold: 1}
-		handle = eventHandlers.NewRefreshEventHandler(lc, c10Topology{topo}, topology.NewTopologyStore(w.dir+"/topology"), lst,
+		handle = eventHandlers.NewRefreshEventHandler(lc, c10Topology{topo, topoErr}, topology.NewTopologyStore(topoPath), lst,
 			nd.coord, nd.host, nd.ledger, p2p.NewConnectionGate(topo), nd.ec, nd.fr, ethCommon.Address{}).HandleEvents
 	default:
 		return "badhandler"
